@@ -19,22 +19,23 @@ import (
 )
 
 type Run struct {
-	W        *World
-	M        *Model
-	Sc       *Scenario
-	Obs      *Obs // last full observation (nil: stale)
-	VL       VList
-	seenSig  map[string]bool
-	Shapes   map[string]bool // command shape × outcome
-	States   map[string]bool // distinct model states at quiescent points
-	Effects  int             // mutations that took effect
-	Faults   int             // faults that fired
-	StepNo   int
-	Cmds     int
-	Resyncs  int
-	agents   []string
-	nsnap    int
-	violScen [][]Step // crash sweeps: the scenario demonstrating each violation
+	W         *World
+	M         *Model
+	Sc        *Scenario
+	Obs       *Obs // last full observation (nil: stale)
+	VL        VList
+	seenSig   map[string]bool
+	Shapes    map[string]bool // command shape × outcome
+	States    map[string]bool // distinct model states at quiescent points
+	Effects   int             // mutations that took effect
+	Faults    int             // faults that fired
+	StepNo    int
+	Cmds      int
+	Resyncs   int
+	agents    []string
+	nsnap     int
+	forgotten map[string]bool // pruned ids whose history a compact has physically removed: nobody can know them any more
+	violScen  [][]Step        // crash sweeps: the scenario demonstrating each violation
 	// options
 	NoObs bool // skip per-step observation (throughput runs)
 }
@@ -378,6 +379,14 @@ func (r *Run) DoCmd(c Cmd) *Proc {
 		if c.IsRead() && (logChanged || dirListSansLock(pre.DirList) != dirListSansLock(post.DirList)) {
 			r.viol("C12", "read-purity", c.Op+"-files", "read-only %s changed .ergo: %s -> %s", shape, pre.DirList, post.DirList)
 		}
+		if c.Op == "compact" {
+			if r.forgotten == nil {
+				r.forgotten = map[string]bool{}
+			}
+			for id := range r.M.Pruned {
+				r.forgotten[id] = true
+			}
+		}
 		r.checkReadReply(c, rm, reply, post)
 		r.afterStep(post)
 		return p
@@ -489,7 +498,7 @@ func (r *Run) finish(c Cmd, pred Pred, rm map[string]any, p *Proc, post *Obs) *M
 				r.viol("C16", "id-not-fresh", shape, "%s reported id %s which already exists", c.String(), id)
 				return nil
 			}
-			if r.M.Pruned[id] {
+			if r.M.Pruned[id] && !r.forgotten[id] {
 				r.viol("C09", "id-reissued", "pruned-id-reissued", "%s issued id %s, which was pruned earlier", c.String(), id)
 			}
 			seen[id] = true
@@ -960,6 +969,59 @@ func (r *Run) DoDisk(d *DiskOp) {
 				r.Faults++
 			}
 		}
+	case "merge_pruned":
+		// a hand-merged log: the events that mention one pruned id (create,
+		// updates, links, tombstone) appear in a different order. The id must
+		// stay gone and nothing else may change.
+		var pruned []string
+		for id := range r.M.Pruned {
+			if !r.forgotten[id] {
+				pruned = append(pruned, id)
+			}
+		}
+		sort.Strings(pruned)
+		b, err := os.ReadFile(lp)
+		if err != nil || len(pruned) == 0 || len(b) == 0 || b[len(b)-1] != '\n' {
+			break
+		}
+		id := pruned[d.N%len(pruned)]
+		ls := splitKeep(b)
+		var idx []int
+		for i, l := range ls {
+			if bytes.Contains(l, []byte(`"`+id+`"`)) {
+				idx = append(idx, i)
+			}
+		}
+		if len(idx) < 2 {
+			break
+		}
+		rng := NewSplitMix(uint64(d.Pos) + 11)
+		perm := append([]int(nil), idx...)
+		for i := len(perm) - 1; i > 0; i-- {
+			j := rng.Intn(i + 1)
+			perm[i], perm[j] = perm[j], perm[i]
+		}
+		out := append([][]byte(nil), ls...)
+		for k, i := range idx {
+			out[i] = ls[perm[k]]
+		}
+		os.WriteFile(lp, joinLines(out), 0o644)
+		r.W.Count.Inc("fault.merge_reorder_pruned")
+		r.Faults++
+		o := r.observe()
+		for _, f := range o.Failures {
+			r.viol("C09", "merge-order-breaks-reads", "read-failed", "after reordering the %d events of pruned id %s a read fails: %s", len(idx), id, f)
+		}
+		if it := o.Items[id]; it != nil && (it.InList || it.Shown) {
+			r.viol("C09", "resurrected-by-merge-order", "pruned-id-visible", "after reordering the %d events of pruned id %s (as a hand merge could) the id is visible again", len(idx), id)
+		}
+		if len(o.Failures) == 0 {
+			if ds := CompareObs(o, r.M, true); len(ds) > 0 {
+				r.viol("C09", "merge-order-changes-state", ds[0].Field, "after reordering the events of pruned id %s the observable state differs: %s", id, ds[0].Detail)
+				r.resync(o)
+			}
+		}
+		return
 	case "legacy_task":
 		// an item as an old ergo version recorded it: no title, the title
 		// lives in the body (optionally under a markdown heading)
